@@ -352,6 +352,41 @@ def _feature_matrix_columns(chk, hm, gfm):
     return {"X": sorted(res[0].cols), "y": None if res[1] is None else (sorted(res[1].cols) if isinstance(res[1], GArr) else repr(res[1])[:40])}
 
 
+_CFG_CACHE: Dict[int, CFG] = {}
+
+
+def _premise_excluded(f: FuncInfo, st: ast.AST) -> bool:
+    """Inside correct_missing_temporal_clusters: does `st` run only when the set of (month, weekday) cells the baseline never saw is
+    non-empty?  Decided from the must-hold guard facts of the CFG (a positive `if not M.empty:` block and the code after an early
+    `if M.empty: return ...` are the same thing), M being any name bound to the index of the cells whose cluster is NaN."""
+    if f.name != "correct_missing_temporal_clusters":
+        return False
+    unseen = set()
+    for n in ast.walk(f.node):
+        if isinstance(n, ast.Assign) and len(n.targets) == 1 and isinstance(n.targets[0], ast.Name):
+            t = unparse(n.value)
+            if ".isna()" in t and t.rstrip().endswith(".index") and "temporal_cluster" in t:
+                unseen.add(n.targets[0].id)
+    if not unseen:
+        return False
+    cfg = _CFG_CACHE.get(id(f.node))
+    if cfg is None:
+        cfg = _CFG_CACHE[id(f.node)] = CFG(f.node)
+    if id(st) not in cfg.g:
+        return False
+    for t, pol in cfg.guards(st):
+        while isinstance(t, ast.UnaryOp) and isinstance(t.op, ast.Not):
+            t, pol = t.operand, not pol
+        tt = unparse(t)
+        if any(tt == f"{m}.empty" for m in unseen) and pol is False:
+            return True
+        if any(tt in (f"len({m}) == 0", f"len({m}) < 1") for m in unseen) and pol is False:
+            return True
+        if any(tt in (f"len({m}) > 0", f"len({m}) != 0", f"len({m})") for m in unseen) and pol is True:
+            return True
+    return False
+
+
 def _ancestor_ifs(f: FuncInfo, st: ast.AST):
     """(If node, branch taken) for every enclosing If of st inside f."""
     out = []
@@ -420,8 +455,8 @@ def _taint_function(chk, r1, fam: str, f: FuncInfo, derived_cols: Set[str], seen
             t = unparse(a.test)
             if (t == "not self.is_fitted" and taken) or (t == "self.is_fitted" and not taken):
                 return "fit-only"
-            if f.name == "correct_missing_temporal_clusters" and t == "not missing_combinations.empty" and taken:
-                return "premise-excluded (month/weekday cell unseen at fit)"
+        if _premise_excluded(f, st):
+            return "premise-excluded (month/weekday cell unseen at fit)"
         return None
 
     for _pass in range(2):  # two passes: loops may carry taint backwards
@@ -568,10 +603,8 @@ def _classify(chk, f: FuncInfo, cfg: CFG, rd: ReachingDefs, st: ast.stmt, reads:
         return "fit-only"
     # enclosing nested function only reachable when not fitted is already excluded by _fitted_reach
     # I premise-excluded: inside correct_missing_temporal_clusters under `not missing_combinations.empty`
-    if f.name == "correct_missing_temporal_clusters":
-        g = cfg.guards(st) if id(st) in cfg.g else []
-        if any(pol and unparse(t) == "not missing_combinations.empty" for t, pol in g) or (isinstance(st, ast.If) and any(pol and unparse(t) == "not missing_combinations.empty" for t, pol in g)):
-            return "premise-excluded (month/weekday cell unseen at fit)"
+    if _premise_excluded(f, st):
+        return "premise-excluded (month/weekday cell unseen at fit)"
     # C pass-through: stored under an observed* name / into the usage column itself
     if isinstance(st, ast.Assign) and len(st.targets) == 1:
         t = st.targets[0]
